@@ -424,12 +424,14 @@ class DemoStorage(ConflictResolvingStorage):
 
         with self._lock:
             self._transaction = transaction
-            if not a and 'tid' not in k:
-                # The changes storage does not know the base: make sure
-                # that the new transaction is later than the base's last.
+            if (a[0] if a else k.get('tid')) is None:
+                # No id is supplied (it may be passed as None).  The
+                # changes storage does not know the base: make sure that
+                # the new transaction is later than the base's last.
                 last = self.base.lastTransaction()
                 if last > self.changes.lastTransaction():
-                    a = (ZODB.utils.newTid(last),)
+                    k.pop('tid', None)
+                    a = (ZODB.utils.newTid(last),) + a[1:]
             self.changes.tpc_begin(transaction, *a, **k)
             self._stored_oids = set()
             del self._resolved[:]
